@@ -78,6 +78,11 @@ def build(case):
         s_ = k00 / G[t0][0][0]
         G = G * s_
         Psi = Psi * math.sqrt(s_)
+    if case.get('scale2') and k00 is None:
+        # overall normalisation of the correlator (quantities in physical units): eigenvalues unchanged, vectors ~ s^-1/2
+        s_ = 10.0 ** case['scale2']
+        G = G * s_
+        Psi = Psi * math.sqrt(s_)
     # observables: exact mean + symmetric noise on one or two ensembles
     ncfg = rng.randint(12, 30)
     names = ['A|r1'] if rng.random() < 0.6 else ['A|r1', 'A|r2']
@@ -832,6 +837,8 @@ def gen_case(ctx):
             'kind': rng.choice(['exact', 'exact', 'crossing']),
             'nonsym': rng.random() < 0.3, 'forder': rng.random() < 0.4}
     case['int00'] = (not case['nonsym']) and what != 'refuse' and rng.random() < 0.25
+    if not case['int00'] and rng.random() < 0.35:
+        case['scale2'] = rng.choice([-10, -12, 6])
     r = rng.random()
     if r < 0.35:
         cand = [t for t in range(T) if t not in (t0, ts)]
